@@ -38,6 +38,9 @@ type Frame struct {
 	parent   *Frame
 	label    string
 	quantDepth int
+	localVals  map[string]ssa.Value // source-level local variables (from DebugRef), for `at` clauses
+	localAddr  map[string]bool
+	atDone     map[*AtClause]bool
 	freshArraysOnly bool
 	preCallAlloc    Term
 	pointwise  map[string][]Term
@@ -592,7 +595,7 @@ func (f *Frame) evalLoopClause(cl *Clause, st *State, phis []*ssa.Phi, next map[
 	args = append(args, f.argVals...)
 	nparams := len(f.argVals)
 	sig := cl.Fn.Signature
-	want := sig.Params().Len() - nparams
+	want := sig.Params().Len() - nparams - len(spec.Locals)
 	vi := 0
 	for i := 0; i < want; i++ {
 		pv := sig.Params().At(nparams + i)
@@ -634,6 +637,18 @@ func (f *Frame) evalLoopClause(cl *Clause, st *State, phis []*ssa.Phi, next map[
 	}
 	if vi != len(phis) && vi != 0 {
 		panic(unsupportedErr{fmt.Sprintf("contract-target-changed: %s: loop clause %s:%d binds %d of %d loop-carried variables (%s)", f.label, shortPos(cl.File), cl.Line, vi, len(phis), phiNames(phis))})
+	}
+	// source-level locals (not loop-carried), by name
+	for _, name := range spec.Locals {
+		v, has := f.localVals[name]
+		if !has {
+			panic(unsupportedErr{fmt.Sprintf("contract-target-changed: %s: local %q of a loop clause is not defined before the loop", f.label, name)})
+		}
+		ts := f.get(v)
+		if f.localAddr[name] {
+			ts = f.ctx.load(st, f.ctx.shapeOf(ts[0], v.Type()))
+		}
+		args = append(args, ts)
 	}
 	return f.ctx.evalSpecFn(cl.Fn, args, st, f.entryHeap(), f)
 }
